@@ -507,7 +507,17 @@ def oracle(ctx, scale):
                                       {"rows": rows, "refs": refs, "n_algorithms": ngroups})
                         return
         else:
-            merged = gen.merge_mode_shapes(MSarr_list=[p.copy() for p in phis], reflist=[list(r) for r in refs])
+            held = [p.copy() for p in phis]
+            merged = gen.merge_mode_shapes(MSarr_list=held, reflist=[list(r) for r in refs])
+            if rng.random() < 0.5:
+                # merging is a pure function of its arguments: the caller's arrays are left alone, so merging the very same
+                # list again gives the very same matrix
+                ctx.oracle_cases += 1
+                again = gen.merge_mode_shapes(MSarr_list=held, reflist=[list(r) for r in refs])
+                if any(not np.array_equal(a, b) for a, b in zip(held, phis)) or not np.array_equal(np.asarray(again), np.asarray(merged)):
+                    ctx.violation("merge-not-repeatable", "merge_mode_shapes modified the caller's per-setup shape arrays (a second merge of the same list differs)",
+                                  {"rows": rows, "refs": refs, "G": [[str(v) for v in r] for r in G.tolist()], "s": s.tolist(), "through_class": False, "repeat": True})
+                    return
         ctx.oracle_cases += 1
         ctx.nontrivial.add(("oracle", nset, nref, tuple(len(c) - nref for c in rows), cplx, tuple(tuple(r) for r in refs)))
         err = max_rel_err(merged, expect)
@@ -623,6 +633,32 @@ def _e2e(ctx):
         if 1 - mc > 1e-8 or abs(res.Fn[j] - S.fn[k]) > 1e-8 * S.fn[k] or abs(res.Xi[j] - S.xi[k]) > 1e-8:
             ctx.violation("e2e-merge", f"PoSER merge of SSI results on noise-free data: mode {j}: MAC {mc:.10f}, Fn {res.Fn[j]} vs {S.fn[k]}, Xi {res.Xi[j]} vs {S.xi[k]}", inp)
             return
+    # the same object merged again: same result (the stored per-setup results are inputs, not scratch space)
+    ctx.oracle_cases += 1
+    res2 = ms.merge_results()["ssi"]
+    if not (np.allclose(res2.Phi, res.Phi, rtol=1e-12, atol=0) and np.array_equal(res2.Fn, res.Fn)):
+        ctx.violation("e2e-merge-not-repeatable", "a second merge_results() on the same MultiSetup_PoSER differs from the first", inp | {"kind": "e2e-ssi-repeat"})
+        return
+    # modes extracted again (another selection) in every setup, then merged: the merge is of what is stored NOW
+    if m >= 2:
+        keep = order[: m - 1]
+        for ss in setups:
+            a = list(ss.algorithms.values())[0]
+            ss.mpe(a.name, sel_freq=[float(S.fn[k]) for k in keep], order=2 * m, rtol=1e-3)
+            if a.result.Fn is None or len(a.result.Fn) != m - 1:
+                ctx.skipped += 1
+                return
+        ctx.oracle_cases += 1
+        ctx.count("e2e_ssi_poser_reextracted")
+        res3 = ms.merge_results()["ssi"]
+        ok = np.asarray(res3.Fn).shape == (m - 1,) and np.asarray(res3.Phi).shape == (len(glob), m - 1)
+        if ok:
+            for j, k in enumerate(keep):
+                if 1 - sysgen.mac(res3.Phi[:, j], S.phi[glob, k]) > 1e-8 or abs(res3.Fn[j] - S.fn[k]) > 1e-8 * S.fn[k]:
+                    ok = False
+        if not ok:
+            ctx.violation("e2e-merge-stale", "merge_results() after a new extraction in every setup does not merge the modes stored now", inp | {"kind": "e2e-ssi-reextract"})
+            return
 
 
 def replay(rec):
@@ -631,7 +667,7 @@ def replay(rec):
     v = rec["violation"]
     inp = v["input"]
     print("replaying", v["sig"], "-", v["what"])
-    if inp.get("kind") == "e2e-ssi":
+    if str(inp.get("kind", "")).startswith("e2e-ssi"):
         print("end-to-end case: re-run `VERIF_SEED=%d ./check C02` (system: fn %s)" % (rec["seed"], inp["fn"]))
         return 0
     G = np.array([[complex(x) for x in r] for r in inp["G"]])
@@ -639,6 +675,9 @@ def replay(rec):
     rows, refs = inp["rows"], inp["refs"]
     phis = [G[rows[i], :] * s[i][None, :] for i in range(len(rows))]
     merged = gen.merge_mode_shapes(MSarr_list=phis, reflist=refs)
+    if inp.get("repeat"):
+        again = gen.merge_mode_shapes(MSarr_list=phis, reflist=refs)
+        print("second merge of the same list equals the first:", bool(np.array_equal(np.asarray(again), np.asarray(merged))))
     order = _expected_order(rows, refs)
     print("rel err vs s0*G[order]:", max_rel_err(merged, G[order, :] * s[0][None, :]))
     return 0
